@@ -6,7 +6,7 @@ PROP = dict(
     design_ref="DESIGN.md §6 C03",
     technique="Coq theorems over an executable Gallina model of the spending-transaction builders (CLN/LND wallet adapters over BitcoinOnChain, LiquidOnChain) for all validator-accepted opening transactions, keys, preimages, fee estimates; 'satisfies the opening script' obtained from C02's interpreter theorem for the witness the builder makes; BIP-68 maturity; model tied to the code by builder constants probed every run and by vm_compute correspondence against the REAL adapters run on fake wallet RPCs, with every Bitcoin spend executed by btcd's script engine and every Liquid spend unblinded / proof-verified / balance-checked / signature-checked with go-elements",
     level_text="Machine-checked Coq proofs: for every opening transaction the validator accepts (any output count and order), every key, hash, preimage, wallet address of the requested kind and every fee estimate that leaves a positive payout, each preimage claim, cooperative claim and CSV refund the CLN and LND adapters (Bitcoin) and LiquidOnChain (Liquid) build is ONE transaction with ONE input spending the validated swap output, whose witness is one of C02's three accepted shapes with signatures made over the consensus digest (swap amount / value commitment), with a single output to the wallet's address of amount minus fee (Bitcoin: estimator fee + fixed 200 sat margin; Liquid: plus the explicit fee output), version 2, sequence 1008/10080/60 for the refund (mineable at height h iff h >= confirmation + csv; no maker-only spend of these scripts is mineable earlier) and 0 for the claims.",
-    level_note="Trusted: Coq kernel; hand-written model of the builders (compared every run with the real code: result, every field of every broadcast transaction, which key signed which digest, validator verdict, btcd engine verdict); ECDSA / BIP-143 / Elements sighash, SHA-256, blinding, range and surjection proofs are NOT modelled (signatures are abstract items constrained by the visible hypothesis sigs_verify; the harness checks the real digests, runs btcd's engine for Bitcoin and verifies real Liquid signatures, proofs and commitment balance); no Elements script interpreter offline (C02's assumption); float64 fee arithmetic enters only through C30's get_fee in the correspondence run, theorems quantify over all fee functions. Domain restriction: fee + 200 <= amount (Bitcoin), 0 < fee <= amount (Liquid); outside it the value formula with wrap-around is a stated theorem (negative / unprovable output, the swap retries).",
+    level_note="Trusted: Coq kernel; hand-written model of the builders (compared every run with the real code: result, every field of every broadcast transaction, which key signed which digest, validator verdict, btcd engine verdict); ECDSA / BIP-143 / Elements sighash, SHA-256, blinding, range and surjection proofs are NOT modelled (signatures are abstract items constrained by the visible hypothesis sigs_verify; the harness checks the real digests, runs btcd's engine for Bitcoin and verifies real Liquid signatures, proofs and commitment balance); no Elements script interpreter offline (C02's assumption); float64 fee arithmetic enters only through C30's get_fee in the correspondence run, theorems quantify over all fee functions. Domain restriction: fee + 200 <= amount (Bitcoin), 0 < fee < amount (Liquid); outside it the value formula with wrap-around is a stated theorem (negative / unprovable output, the swap retries).",
     assumptions=[
         "signatures made over the digest consensus verification computes verify under the signer's public key (hypothesis sigs_verify of the theorems)",
         "the P2WSH program of the validated output is the SHA-256 of the opening script (oracle input `want`; SHA-256 collision resistance)",
